@@ -1,10 +1,12 @@
 #!/bin/bash
 # usage: tools/try_seed.sh <patch.diff> <tier> <ID> [<ID>...]
 # Runs the checks against a scratch copy of /repo with the patch applied (VERIF_REPO), so that
-# /repo itself is never touched while background sweeps use it.  With TRY_IN_REPO=1 the patch is
+# /repo itself is never touched while background sweeps use it; evidence and replays of these runs
+# go to a scratch directory (VERIF_OUT), never to /verif/evidence.  With TRY_IN_REPO=1 the patch is
 # applied to /repo itself and reverted afterwards (the procedure of the brief).
 patch=$(readlink -f $1); tier=$2; shift 2
 cd "$(dirname "$0")/.."
+out=/var/tmp/try-out-$$; mkdir -p $out
 if [ "${TRY_IN_REPO:-0}" = 1 ]; then
   if ! git -C /repo diff --quiet; then echo "/repo has uncommitted changes"; exit 2; fi
   git -C /repo apply $patch || exit 2
@@ -13,12 +15,12 @@ else
   tree=/var/tmp/repo-seed-$$
   rm -rf $tree; mkdir -p $tree
   rsync -a --exclude .git --exclude pygyro.egg-info /repo/ $tree/
-  (cd $tree && git apply $patch) || { rm -rf $tree; exit 2; }
+  (cd $tree && git apply $patch) || { rm -rf $tree $out; exit 2; }
 fi
 for id in "$@"; do
-  VERIF_REPO=$tree ./run_check.py $id --tier $tier > /var/tmp/try_$id.log 2>&1; rc=$?
-  echo "[$id rc=$rc] $(grep -c '^VIOLATION' /var/tmp/try_$id.log) VIOLATION line(s); $(grep '^violation:' /var/tmp/try_$id.log | head -3 | cut -c1-220)"
-  tail -1 /var/tmp/try_$id.log
+  VERIF_REPO=$tree VERIF_OUT=$out ./run_check.py $id --tier $tier > $out/try_$id.log 2>&1; rc=$?
+  echo "[$id rc=$rc] $(grep -c '^VIOLATION' $out/try_$id.log) VIOLATION line(s); $(grep '^violation:' $out/try_$id.log | head -3 | cut -c1-220)"
+  tail -1 $out/try_$id.log
 done
 if [ "${TRY_IN_REPO:-0}" = 1 ]; then git -C /repo checkout -- .; else rm -rf $tree; fi
-git checkout -- evidence 2>/dev/null
+rm -rf $out
